@@ -110,7 +110,11 @@ func main() {
 			switch {
 			case res.ErrIdx != -1:
 				e.Count(true, res.CaseLine(), "rejected:"+res.ErrClass)
-				e.Fail("unexpected-rejection", fmt.Sprintf("operation %d of a program of valid operations is refused: %s", res.ErrIdx, res.ErrText), res.Describe())
+				if res.ErrClass == "panic" {
+					e.Fail("writer-panics", fmt.Sprintf("operation %d panics: %s", res.ErrIdx, res.ErrText), res.Describe())
+				} else if !res.Provoked {
+					e.Fail("unexpected-rejection", fmt.Sprintf("operation %d of a program of valid operations is refused: %s", res.ErrIdx, res.ErrText), res.Describe())
+				}
 			default:
 				rb := prog.Check(res)
 				seen := map[string]bool{}
